@@ -156,7 +156,117 @@ func advSrc(fam string, n int) (src string, run bool) {
 	return "", false
 }
 
+// rkKinds: every kind of operand the compiler may encode as a constant (RK) operand or must load
+// into a register once the constant index exceeds opMaxIndexRk = 255. use = statements whose FIRST
+// mention of the target constant (the name TGT / the number 4242.25) is the operand in question;
+// nothing they return depends on the padding.
+var rkKinds = map[string]string{
+	"self":      "local r1, r2 = obj:TGT(7)\nreturn r1, r2\n",
+	"self_stmt": "obj:TGT(7)\nreturn last\n",
+	"methdef":   "function obj:TGT(a) return 'm', a, self == obj end\nreturn rawget(obj, 'TGT') ~= nil, obj:TGT(3)\n",
+	"funcdef":   "function obj.TGT(a) return 'f', a end\nreturn rawget(obj, 'TGT') ~= nil, obj.TGT(3)\n",
+	"fieldget":  "local f = obj.TGT\nreturn (f(obj, 1))\n",
+	"fieldset":  "obj.TGT = 5\nreturn rawget(obj, 'TGT'), obj.TGT\n",
+	"fieldset2": "local v = 6\nobj.TGT, obj.other = v, v\nreturn rawget(obj, 'TGT'), rawget(obj, 'other')\n",
+	"strindex":  "local t = {}\nt['TGT'] = 4\nreturn t['TGT'], t.TGT\n",
+	"tabkey":    "local t = {TGT = 1, [2] = 3}\nreturn t.TGT, t[2]\n",
+	"global":    "TGT = 9\nreturn TGT, rawget(_G, 'TGT')\n",
+	"globalget": "return TGT == nil, type(TGT)\n",
+	"strarg":    "local function id(...) return ... end\nreturn id('TGT', 'TGT')\n",
+	"strlocal":  "local s = 'TGT'\nreturn s .. 'x', #s\n",
+	"arith_r":   "local a = 2\nreturn a + 4242.25, a * 4242.25\n",
+	"arith_l":   "local a = 2\nreturn 4242.25 - a, 4242.25 / a\n",
+	"cmp_r":     "local a = 2\nreturn a < 4242.25, a == 4242.25, a >= 4242.25\n",
+	"cmp_l":     "local a = 2\nreturn 4242.25 <= a, 4242.25 ~= a\n",
+	"cmp_if":    "local a = 2\nif a == 4242.25 then return 'eq' elseif a < 4242.25 then return 'lt' end\nreturn 'gt'\n",
+	"numindex":  "local t = {}\nt[4242.25] = 1\nreturn t[4242.25]\n",
+	"numfor":    "local n = 0\nfor i = 4242.25, 4244 do n = n + 1 end\nreturn n\n",
+	"numarg":    "local function id(...) return ... end\nreturn id(4242.25)\n",
+}
+
+// rkSrc builds the program whose target constant first appears at constant index idx of the main
+// chunk (constant 0 is the number 0.5; one distinct number constant per padding statement), by
+// compiling and adjusting the padding. ok=false if the compiler does not place it there.
+func rkSrc(kind string, idx int) (string, bool) {
+	use, ok := rkKinds[kind]
+	if !ok {
+		return "", false
+	}
+	build := func(pad int) string {
+		var sb strings.Builder
+		sb.WriteString("local z = 0.5\nlast = nil\nlocal obj = setmetatable({}, {__index = function(t, k) return function(self, a) last = k; return k, a end end})\n")
+		for i := 1; i <= pad; i++ {
+			fmt.Fprintf(&sb, "z = z + %d.5\n", i)
+		}
+		sb.WriteString(use)
+		return sb.String()
+	}
+	find := func(src string) int {
+		fp, _, _ := compileSrc(src, "rk")
+		if fp == nil {
+			return -1
+		}
+		for i, k := range fp.Constants {
+			if k.String() == "TGT" || k.String() == "4242.25" {
+				return i
+			}
+		}
+		return -1
+	}
+	pad := idx
+	for try := 0; try < 3; try++ {
+		if pad < 0 {
+			return "", false
+		}
+		src := build(pad)
+		got := find(src)
+		if got < 0 {
+			return "", false
+		}
+		if got == idx {
+			return src, true
+		}
+		pad += idx - got
+	}
+	return "", false
+}
+
+// runRk: the target constant at index n, executed, and compared with the same program whose
+// padding is 10 constants shorter (a behavioural translation-validation check: the results must
+// not depend on where in the constant table the operand lives).
+func runRk(c *ctx, kind string, n int) {
+	src, ok := rkSrc(kind, n)
+	ref, ok2 := rkSrc(kind, n-10)
+	if !ok || !ok2 {
+		c.rejected["adv/rk_"+kind+"/not-placed"]++
+		c.w.Meta.Discarded++
+		return
+	}
+	fp, _, _ := compileSrc(ref, "rkref")
+	if fp == nil {
+		c.rejected["adv/rk_"+kind+"/ref"]++
+		c.w.Meta.Discarded++
+		return
+	}
+	_, res := runTraced(fp, dumpProto(fp), 100000, nil)
+	if res.Err != "" || res.Panicked != "" {
+		c.rejected["adv/rk_"+kind+"/ref-run"]++
+		c.w.Meta.Discarded++
+		return
+	}
+	c.expect = res.Results
+	if c.expect == nil {
+		c.expect = []string{}
+	}
+	c.process(input{Kind: "adv", Fam: "rk_" + kind, N: n, Run: true}, src, "adv", "adv/rk_"+kind, nil, nil)
+	c.expect = nil
+}
+
 func runAdv(c *ctx, fam string, n int) {
+	if strings.HasPrefix(fam, "rk_") {
+		runRk(c, strings.TrimPrefix(fam, "rk_"), n)
+		return
+	}
 	src, run := advSrc(fam, n)
 	var expect []string
 	if src == "" {
@@ -208,6 +318,18 @@ func grpSrc(fam string, n int) (string, []string) {
 			[]string{fmt.Sprint(n + 3), "3"}
 	case "grp_setlist_arg":
 		return "local function f(a, b) return #a, b end\nlocal x = 5\nreturn f({" + items("7", n) + "}, x)\n", []string{N, "5"}
+	case "grp_setlist_len": // the constructor is the operand of a propagating (PropagateMV/KMV) consumer
+		return "return #{" + items("7", n) + "}\n", []string{N}
+	case "grp_setlist_len_fn":
+		return "local function f() return #{" + items("7", n) + "} end\nreturn f()\n", []string{N}
+	case "grp_setlist_not":
+		return "return not {" + items("7", n) + "}\n", []string{"false"}
+	case "grp_setlist_index":
+		return "local i = " + N + "\nreturn ({" + items("7", n) + "})[i], ({" + items("8", n) + "})[1]\n", []string{"7", "8"}
+	case "grp_setlist_cond":
+		return "local r = 0\nif {" + items("7", n) + "} then r = 1 end\nwhile not {" + items("7", n) + "} do r = 2 end\nreturn r\n", []string{"1"}
+	case "grp_setlist_andor":
+		return "local x = false\nlocal t = x or {" + items("7", n) + "}\nlocal u = t and {" + items("8", n) + "}\nreturn #t, #u\n", []string{N, N}
 	case "grp_closure_moves":
 		return "local a, b, c = 1, 2, 3\nlocal f = function() return a + b + c end\nlocal x, y, z = a, b, c\nreturn f(), x, y, z\n", []string{"6", "1", "2", "3"}
 	case "grp_closure_loadnil":
@@ -288,13 +410,20 @@ func adversarial(c *ctx, tier string) {
 		ladder[f] = []int{1}
 	}
 	ladder["grp_moven_long"] = []int{60, 90}
+	for k := range rkKinds {
+		ladder["rk_"+k] = []int{255, 256, 257}
+		if tier == "thorough" {
+			ladder["rk_"+k] = []int{253, 254, 255, 256, 257, 258, 511, 512, 513}
+		}
+	}
 	for vars := 1; vars <= 8; vars++ {
 		for shape := 0; shape <= 5; shape++ {
 			ladder["tfor_vars"] = append(ladder["tfor_vars"], vars*10+shape)
 		}
 	}
 	for _, f := range []string{"grp_setlist_move", "grp_setlist_moves", "grp_setlist_loadnil", "grp_setlist_label", "grp_setlist_if", "grp_setlist_loop",
-		"grp_setlist_closure", "grp_setlist_twice", "grp_setlist_open", "grp_setlist_arg"} {
+		"grp_setlist_closure", "grp_setlist_twice", "grp_setlist_open", "grp_setlist_arg", "grp_setlist_len", "grp_setlist_len_fn",
+		"grp_setlist_not", "grp_setlist_index", "grp_setlist_cond", "grp_setlist_andor"} {
 		ladder[f] = []int{120, 25551, 25553}
 		if tier == "thorough" {
 			ladder[f] = append(ladder[f], 25550, 25600, 25601, 25651)
